@@ -28,6 +28,9 @@ Example session_insists_on_fresh :
 Proof. vm_compute. reflexivity. Qed.
 
 (* operations on a copy do not reach the original: its text is still 10 *)
+Example session_touch_fills : ex_bad [PNew 10; PTouch 0 2; PMut 0 99 11; PQuery 0 2 100] = [(3, 2)].
+Proof. vm_compute. reflexivity. Qed.
+
 Example session_copy_isolated :
   ex_good [PNew 10; PDerive 0 99 10; PMut 1 99 11; PText 0 10; PText 1 11; PQuery 0 2 100; PQuery 1 2 101] = [].
 Proof. vm_compute. reflexivity. Qed.
